@@ -339,7 +339,8 @@ def rule_publish(ctx, mod, fname, stops):
     f = mod.fn(fname)
     if f is None:
         return
-    mod.check_fields(PUBLISH_FIELDS)
+    # (field names are validated against the unit that defines all of them; other units may not mention every struct)
+    mod.check_fields([x for x in PUBLISH_FIELDS if x.split('.')[0] in mod.structs])
     for s in switch_sites(f):
         if not s.is_swap:
             continue
@@ -356,6 +357,19 @@ def rule_publish(ctx, mod, fname, stops):
                 continue
             if len(c.args) >= 2 and f.sources(c.args[1]) & f.sources(owner):
                 offenders.append(c)
+        # a function called directly that publishes one of its parameters (e.g. a switch callback invoked as a plain call)
+        for c in f.calls():
+            g_ = mod.fn(c.callee) if c.callee else None
+            if g_ is None or c.callee in PUBLISH_CALLS or not f.can_reach(c, s.ins) or c is s.ins:
+                continue
+            for i_, a_ in enumerate(c.args):
+                if not (isinstance(a_, str) and f.sources(a_) & f.sources(owner)):
+                    continue
+                pid = 'a%d' % i_
+                pub = [x for x in call_sites(g_, PUBLISH_CALLS) if len(x.args) >= 2 and pid in g_.sources(x.args[1])] + \
+                      [x for x in g_.order if x.op == 'store' and g_.field(x) in PUBLISH_FIELDS and pid in g_.sources(x.ops[0])]
+                if pub:
+                    offenders.append(c)
         for st in f.order:
             if st.op == 'store' and f.field(st) in PUBLISH_FIELDS and \
                     f.can_reach(st, s.ins) and (f.sources(st.ops[0]) & f.sources(owner)):
@@ -430,6 +444,7 @@ SWAP_FUNCS = {  # function -> translation unit that contains it
     'myth_create_ex_body': 'myth_if_native.c', 'myth_join_body': 'myth_if_native.c',
     'myth_yield_ex_body': 'myth_if_native.c', 'myth_uncond_wait_body': 'myth_if_native.c',
     'myth_block_on_queue': 'myth_if_native.c', 'myth_block_on_stack': 'myth_if_native.c',
+    'myth_startpoint_exit_ex_body': 'myth_init.c', 'myth_startpoint_init_ex_body': 'myth_init.c',
 }
 
 
@@ -467,13 +482,15 @@ def run(ctx):
         native = ctx.ssa('myth_if_native.c', fl)
         rule_make_context(ctx, native)
         stops = PUBLISH_CALLS + ('myth_queue_pop', 'myth_mutex_unlock_body') + lib.SPIN_STOPS
-        v = ctx.view('myth_if_native.c', roots=list(SWAP_FUNCS), stops=stops, flavour=fl)
-        for fname in SWAP_FUNCS:
-            ctx.need_fn(v, fname)
-            rule_publish(ctx, v, fname, stops)
+        for tu in sorted(set(SWAP_FUNCS.values())):
+            names = [n for n, t in SWAP_FUNCS.items() if t == tu]
+            v = ctx.view(tu, roots=names, stops=stops, flavour=fl)
+            for fname in names:
+                ctx.need_fn(v, fname)
+                rule_publish(ctx, v, fname, stops)
         rule_handover(ctx, fl)
         from . import c12
-        with ctx.shared({'C12.4': 'C03.9'}, keep=lambda k: k.startswith('create:'), floor=5,
+        with ctx.shared({'C12.4': 'C03.9'}, keep=lambda k: k.startswith(('create:', 'alloc:', 'free:', 'alloc and free')), floor=15,
                         doc='initial stack layout (shared with C12.4): the per-thread hint copied below the stack header and the initial '
                             'stack pointer handed to myth_make_context_* do not overlap (the first frames of the thread would '
                             'overwrite the hint, or an update of the hint a suspended thread\'s frames)'):
@@ -481,17 +498,22 @@ def run(ctx):
                           stops=('myth_queue_push', 'myth_queue_pop', 'get_new_myth_thread_struct_desc', 'get_new_myth_thread_struct_stack',
                                  'myth_init_ex_body', 'myth_make_context_empty', 'myth_make_context_voidcall') + lib.SPIN_STOPS, flavour=fl)
             c12.rule4_custom_data(ctx, v4)
+            v2 = ctx.view('myth_if_native.c', roots=['get_new_myth_thread_struct_stack', c12.STACK_FREE, 'myth_flmalloc', 'myth_flfree'],
+                          stops=('myth_freelist_pop', 'myth_freelist_push', 'myth_mmap'), flavour=fl)
+            c12.rule4_affine(ctx, v2)
     ctx.floor('C03.1', 14 * 3)
     ctx.floor('C03.2', 11 * 5)
     ctx.floor('C03.3', 11)
     ctx.floor('C03.4', 11 + 5)
     ctx.floor('C03.5', 14)
     ctx.floor('C03.6', 12 * 4)
-    ctx.floor('C03.7', 7)
+    ctx.floor('C03.7', 9)
 
 
 CTXF = 'src/myth_context_func.h'
 MUTANTS = [
+    {'name': 'fini hands the main thread over before its context is saved (seed3 C03/m3)', 'expect': 'C03.7',
+     'edits': [('src/myth_worker_func.h', "    myth_swap_context_withcall(&th->context, &env->sched.context, \n\t\t\t       myth_startpoint_exit_ex_1,\n\t\t\t       (void*)th, (void*) rank_, NULL);", "    myth_startpoint_exit_ex_1((void*)th, (void*) rank_, NULL);\n    myth_swap_context(&th->context, &env->sched.context);")]},
     {'name': 'drop push/pop of r13', 'expect': ['C03.1', 'C03.2'],
      'edits': [(CTXF, '\t"push %%r13\\n"\\\n\t"push %%r14\\n"\\\n\t"push %%r15\\n"\\\n\tPUSH_FPCSR()\n#define POP_CALLEE_SAVED() \\\n\tPOP_FPCSR() \\\n\t"pop %%r15\\n"\\\n\t"pop %%r14\\n"\\\n\t"pop %%r13\\n"\\',
                 '\t"push %%r14\\n"\\\n\t"push %%r15\\n"\\\n\tPUSH_FPCSR()\n#define POP_CALLEE_SAVED() \\\n\tPOP_FPCSR() \\\n\t"pop %%r15\\n"\\\n\t"pop %%r14\\n"\\')]},
